@@ -333,7 +333,7 @@ class Fragment:
         self.note(cls, c, detail or f"{old!r} -> {new!r}")
 
     # --- names of locals of the real code -------------------------------------------------------
-    # Ghost text refers to a local variable of the code as @{logical}; bind() looks the actual identifier up in the
+    # Ghost text refers to a local variable of the code as §logical§; bind() looks the actual identifier up in the
     # extracted text, so that renaming a local (or adding a type annotation to its `let`) does not break the script.
     def bind(self, logical, regex, group=1):
         if not hasattr(self, 'names'):
@@ -414,7 +414,7 @@ class Fragment:
 
     def fmt(self, text):
         names = getattr(self, 'names', {})
-        return re.sub(r'@\{(\w+)\}', lambda m: names.get(m.group(1), m.group(1)), text)
+        return re.sub(r'§(\w+)§', lambda m: names.get(m.group(1), m.group(1)), text)
 
     def _find_anchor(self, anchor, nth=1):
         """(start, end) of the nth occurrence of anchor (str or compiled regex) or None."""
